@@ -247,4 +247,21 @@ PROPS = {
         "assumptions": [],
         "partial": "c08_fold_holds_store_partial excludes two different points of one identity sharing a timestamp (the property allows non-decreasing times); such ties are covered by the correspondence run only",
     },
+    "C07": {
+        "required_theorems": ["c07_wanted_iff", "c07_one_client_per_placement", "c07_quiesce", "c07_exit_removes", "c07_children_current_kept", "c07_stop_returns", "gen_manager_pinned"],
+        "n": {"quick": 250, "thorough": 5000},
+        "thorough_seeds": 3,
+        "rule": "one in-process instance; per case a client.Manager[Vdev] with configured parent type vparent runs while a history is executed under a fresh group: containers (group, vparent, plain device = not a "
+                "parent type), client nodes c1/c2 created in one or several placements, vchild children added, edges of every kind deleted and undeleted (placements, children, containers), foreign "
+                "configuration updates, and 'w' steps that let the manager settle; often all placements or all containers are deleted at the end. Two labels: S = settled histories (a 'w' before every "
+                "operation that relies on a client's subscription: child add/remove, updates), X = racing histories (no such waits). At the end a scan is forced (a node-type point below the root), the "
+                "manager settles (bounded wait, subscriptions probed), then: clients inside Run per placement with their children and folded-config-vs-store, overlaps ever seen, Stop returned, clients left. "
+                "Oracle = fixpoint closure from the root through non-deleted group/vparent children; one client each; children current; no overlap; Stop returns with nothing left; distinct = distinct case line",
+        "trusted": ["Go scheduler / channel semantics of the manager's select loop (the LTS abstracts them into atomic events)", "embedded nats-server / nats.go", "modernc SQLite as in C05"],
+        "modelled": ["client/manager.go scanHelper (which placements are wanted) on the store model, and the bookkeeping of scan / stop / exit / Stop as a labelled transition system (Siot/Model/Manager.lean); shape re-extracted every run (gen_manager_pinned)",
+                     "timing is not modelled: 'once node changes quiesce' is rendered as: one scan after the last change, then the exits of the clients told to stop; the 5 s guards (client that ignores Stop, shutdown timer) and the 1-minute rescan are outside the model (the harness forces a scan)",
+                     "that a child change reaches the client's subscription is C06/C08 (c07_children_current_kept takes the trigger as an event); the window before the subscription exists is the open finding",
+                     "newClientState returning an error (scan then dereferences a nil clientState) is not modelled and not generated"],
+        "assumptions": [],
+    },
 }
